@@ -613,6 +613,7 @@ func runC06(e *Env) error {
 		if e.Atlas != "" {
 			c06CLI(e, work)
 			c06Import(e, work)
+			c06EnvFormat(e, work)
 		}
 	}
 	return nil
@@ -791,12 +792,49 @@ env "local" {
 		}
 		return cliOut{}
 	}}
+	tamper := func(kind string) step {
+		return step{"(atlas.sum entries edited, header line kept: " + kind + ")", func(dir string) cliOut {
+			p := filepath.Join(dir, "m", "atlas.sum")
+			b, err := os.ReadFile(p)
+			if err != nil {
+				return cliOut{}
+			}
+			ls := strings.Split(strings.TrimRight(string(b), "\n"), "\n")
+			if len(ls) < 3 {
+				return cliOut{}
+			}
+			switch kind {
+			case "hash-char":
+				r := []byte(ls[1])
+				k := len(r) - 5
+				if r[k] == 'A' {
+					r[k] = 'B'
+				} else {
+					r[k] = 'A'
+				}
+				ls[1] = string(r)
+			case "swap":
+				ls[1], ls[2] = ls[2], ls[1]
+			case "remove":
+				ls = append(ls[:1], ls[2:]...)
+			case "append":
+				ls = append(ls, "zz_ghost.sql h1:AAAAAAAAAAAAAAAAAAAAAAAAAAAAAAAAAAAAAAAAAAA=")
+			}
+			os.WriteFile(p, []byte(strings.Join(ls, "\n")+"\n"), 0o644)
+			return cliOut{}
+		}}
+	}
 	scenarios := [][]step{
 		{setSchema(schema1), plainDiff("first"), setSchema(schema2), plainDiff("second"), newFile},
 		{setSchema(schema1), envDiff("first"), setSchema(schema2), envDiff("second")},
 		{setSchema(schema1), plainDiff("first"), setSchema(schema2), envDiff("second"), newFile},
 		{newFile, setSchema(schema1), envDiff("first")},
 		{setSchema(schema1), plainDiff("first"), appendStmt, hash, setSchema(schema2), plainDiff("second")},
+		// `migrate hash` repairs a sum file whose entry lines were edited (the header line still names the right sum)
+		{setSchema(schema1), plainDiff("first"), setSchema(schema2), plainDiff("second"), tamper("hash-char"), hash},
+		{setSchema(schema1), plainDiff("first"), setSchema(schema2), plainDiff("second"), tamper("swap"), hash},
+		{setSchema(schema1), plainDiff("first"), setSchema(schema2), plainDiff("second"), tamper("remove"), hash, newFile},
+		{setSchema(schema1), plainDiff("first"), setSchema(schema2), plainDiff("second"), tamper("append"), hash},
 	}
 	for si, sc := range scenarios {
 		dir := filepath.Join(work, fmt.Sprintf("c06cli-%d", si))
@@ -904,6 +942,54 @@ func c06Import(e *Env, work string) {
 			if fmt.Sprint(listed) != fmt.Sprint(want) {
 				e.Res.Violate("failing-input", "sum-file-entries-not-in-name-order", fmt.Sprintf("after `migrate import` (%s) atlas.sum lists %v, the directory holds %v", sc.format, listed, want), "Props.C06.writers_leave_valid", rep)
 			}
+		}
+		os.RemoveAll(dir)
+	}
+}
+
+// c06EnvFormat: a third-party directory whose format is given by the project configuration
+// (env { migration { dir, format } }): `migrate hash --env` must leave a directory that `migrate validate
+// --env` and the URL form (?format=) accept, and write the same sum file as `migrate hash --dir ...?format=`.
+func c06EnvFormat(e *Env, work string) {
+	up := func(t string) string { return "CREATE TABLE " + t + " (id int);\n" }
+	type src struct {
+		format string
+		files  map[string]string
+	}
+	for si, sc := range []src{
+		{"golang-migrate", map[string]string{"1_a.up.sql": up("a"), "1_a.down.sql": "DROP TABLE a;\n", "2_b.up.sql": up("b"), "2_b.down.sql": "DROP TABLE b;\n"}},
+		{"flyway", map[string]string{"V1__a.sql": up("a"), "V2__b.sql": up("b"), "U1__a.sql": "DROP TABLE a;\n", "R__v.sql": "CREATE VIEW v AS SELECT 1;\n"}},
+		{"goose", map[string]string{"1_a.sql": "-- +goose Up\n" + up("a") + "-- +goose Down\nDROP TABLE a;\n", "2_b.sql": "-- +goose Up\n" + up("b")}},
+		{"dbmate", map[string]string{"1_a.sql": "-- migrate:up\n" + up("a") + "-- migrate:down\nDROP TABLE a;\n", "2_b.sql": "-- migrate:up\n" + up("b")}},
+		{"atlas", map[string]string{"1_a.sql": up("a"), "2_b.sql": up("b")}},
+	} {
+		dir := filepath.Join(work, fmt.Sprintf("c06env-%d", si))
+		os.RemoveAll(dir)
+		os.MkdirAll(filepath.Join(dir, "m"), 0o755)
+		for n, c := range sc.files {
+			os.WriteFile(filepath.Join(dir, "m", n), []byte(c), 0o644)
+		}
+		os.WriteFile(filepath.Join(dir, "atlas.hcl"), []byte("env \"local\" {\n  dev = \"sqlite://dev?mode=memory\"\n  migration {\n    dir = \"file://m\"\n    format = \""+sc.format+"\"\n  }\n}\n"), 0o644)
+		rep := map[string]any{"format": sc.format}
+		e.Res.Count(fmt.Sprintf("cli-env-format:%s", sc.format), true, "cli-env-format")
+		urlDir := "file://m?format=" + sc.format
+		h1 := runAtlas(e, dir, nil, "migrate", "hash", "--dir", urlDir)
+		sumURL, _ := os.ReadFile(filepath.Join(dir, "m", "atlas.sum"))
+		os.Remove(filepath.Join(dir, "m", "atlas.sum"))
+		h2 := runAtlas(e, dir, nil, "migrate", "hash", "--env", "local")
+		sumEnv, _ := os.ReadFile(filepath.Join(dir, "m", "atlas.sum"))
+		if h1.Code != 0 || h2.Code != 0 {
+			e.Res.Violate("failing-input", "cli-writer-fails", fmt.Sprintf("`migrate hash` on a %s directory fails: --dir: %d %s; --env: %d %s", sc.format, h1.Code, trunc(h1.Stderr, 150), h2.Code, trunc(h2.Stderr, 150)), "Props.C06.writers_leave_valid", rep)
+			os.RemoveAll(dir)
+			continue
+		}
+		if string(sumURL) != string(sumEnv) {
+			e.Res.Violate("failing-input", "cli-writer-leaves-invalid-dir", fmt.Sprintf("`migrate hash --env local` (format %s from the configuration) writes another sum file than `migrate hash --dir %s`:\n%s\nvs\n%s", sc.format, urlDir, trunc(string(sumEnv), 300), trunc(string(sumURL), 300)), "Props.C06.writers_leave_valid", rep)
+		}
+		v1 := runAtlas(e, dir, nil, "migrate", "validate", "--env", "local")
+		v2 := runAtlas(e, dir, nil, "migrate", "validate", "--dir", urlDir)
+		if v1.Code != 0 || v2.Code != 0 {
+			e.Res.Violate("failing-input", "cli-writer-leaves-invalid-dir", fmt.Sprintf("after `migrate hash --env local` the %s directory does not validate: --env: exit %d %s; --dir %s: exit %d %s", sc.format, v1.Code, trunc(v1.Stderr+v1.Stdout, 200), urlDir, v2.Code, trunc(v2.Stderr+v2.Stdout, 200)), "Props.C06.writers_leave_valid", rep)
 		}
 		os.RemoveAll(dir)
 	}
